@@ -264,7 +264,20 @@ fn run_tinylfu_inner(c: &TCase, prop: E7Prop, rep: &mut CaseReport) -> Result<()
             }
             TOp::Clone => {
                 if twin.is_none() {
-                    let tw = t.clone();
+                    // clone(), or clone_from() into an estimator of another configuration
+                    let tw = if i % 2 == 0 {
+                        t.clone()
+                    } else {
+                        let other = TCase { size: c.size % 7 + 1, samples: c.samples % 5 + 1, fp: 0.3, kh: c.kh, sketch_seed: Some(99), single: None, ops: vec![] };
+                        match build_tinylfu(&other) {
+                            Ok(mut o) => {
+                                o.increment_hashed_key(3);
+                                o.clone_from(&t);
+                                o
+                            }
+                            Err(_) => t.clone(),
+                        }
+                    };
                     if tw.verif_dump() != t.verif_dump() && prop == E7Prop::C16 {
                         return Err(tv(prop, i, "clone-differs", format!("step {i}: the clone's estimator state differs from the original's")));
                     }
